@@ -357,6 +357,22 @@ class Ctx:
             r = self.T[b['locals'][0]['ty']]
             if r['k'] == 'bool' and a['k'] == 'ref' and self.T[a['to']].get('adt') == 'std::io::Error':
                 cands.append(k)
+        if len(cands) > 1:
+            # several predicates over io::Error: the classifier is the one the cache-directory lookup itself
+            # consults to turn a failed open into a miss; failing that, the one with the most callers
+            try:
+                get = self.cachedir_methods()['get']
+                direct = [k for k in cands if k in self.cg.local_edges.get(get, ())]
+            except RoleError:
+                direct = []
+            if len(direct) == 1:
+                return direct[0]
+            pool = direct or cands
+            ncall = {k: sum(1 for src, dst in self.cg.local_edges.items() if k in dst) for k in pool}
+            best = max(ncall.values())
+            top = [k for k in pool if ncall[k] == best]
+            if len(top) == 1:
+                return top[0]
         if len(cands) != 1:
             raise RoleError('absence classifier: expected one fn(&io::Error)->bool, found %s' % cands)
         return cands[0]
